@@ -367,6 +367,7 @@ func (t *FatTeddy) FindMatch(haystack []byte, start int) (int, int) {
 
 	// Process candidates
 	for pos != -1 {
+		bestID := -1
 		// Iterate through all set bits in bucket mask
 		for bucketMask != 0 {
 			bucket := bits.TrailingZeros16(bucketMask)
@@ -374,10 +375,17 @@ func (t *FatTeddy) FindMatch(haystack []byte, start int) (int, int) {
 
 			matchPos, patternID := t.verifyBucket(haystack[accumulatedOffset:], pos, bucket)
 			if matchPos != -1 && patternID >= 0 && patternID < len(t.patterns) {
-				matchStart := start + accumulatedOffset + matchPos
-				matchEnd := matchStart + len(t.patterns[patternID])
-				return matchStart, matchEnd
+				// Several buckets can match at this position (one literal is a prefix of
+				// another). The leftmost-first alternative is the one with the smallest
+				// pattern index, which is not necessarily in the lowest bucket.
+				if bestID < 0 || patternID < bestID {
+					bestID = patternID
+				}
 			}
+		}
+		if bestID >= 0 {
+			matchStart := start + accumulatedOffset + pos
+			return matchStart, matchStart + len(t.patterns[bestID])
 		}
 
 		nextSearchStart := accumulatedOffset + pos + 1
